@@ -75,3 +75,45 @@ func vhShape(st, sh int) (ng, nc, ncb, gi int) {
 	}
 	return 2, 2, 1, 0
 }
+
+// VH_C10_StepFrame: whatever line arrives (complete, or cut anywhere and hence
+// without its newline), a scan step changes at most the goroutine being read —
+// the last one, or in a race report's creation section the one it names —
+// goroutines completed earlier are never touched.
+//
+//verif:prop C10
+//verif:param st 2..18
+//verif:param n quick=1,2,5,9 thorough=1..14
+//verif:contract (*Func).Init parseArgs
+//verif:summarize trimLeftSpace atou
+func VH_C10_StepFrame(st, n int) {
+	if state(st) == gotRaceHeader1 || state(st) == gotRaceHeader2 {
+		return
+	}
+	ng, nc, ncb, gi := vhShape(st, 1)
+	s := vhPre(st, 0, ng, nc, ncb, gi)
+	line := vhLine(n)
+	before := vhRemember(s)
+	_, _ = s.scan(line)
+	vReach("line scanned")
+	vAssert(len(s.Goroutines) >= ng, "no goroutine is dropped by a step")
+	raceCreator := state(st) == gotRaceGoroutineHeader || state(st) == gotRaceGoroutineFunc || state(st) == gotRaceGoroutineFile
+	raceSelect := state(st) == betweenRaceOperations || state(st) == betweenRaceGoroutines
+	for i := 0; i < ng && i < len(s.Goroutines); i++ {
+		if i == ng-1 && !raceCreator {
+			continue // the goroutine being read
+		}
+		if raceCreator && i == gi {
+			continue
+		}
+		g := s.Goroutines[i]
+		vAssert(g == before[i].g, "earlier goroutine is the same object")
+		if raceSelect {
+			// a creation header may set the state of the goroutine it names
+			vAssert(vAnd(g.ID == before[i].id, vAnd(vhStackEq(&g.Stack, &before[i].sg.Stack), vhStackEq(&g.CreatedBy, &before[i].sg.CreatedBy))), "earlier goroutine keeps id and stacks")
+		} else {
+			vAssert(vAnd(g.ID == before[i].id, g.First == before[i].fi), "earlier goroutine keeps id/first")
+			vAssert(vhSigEq(&g.Signature, &before[i].sg), "earlier goroutine's signature untouched")
+		}
+	}
+}
